@@ -60,6 +60,22 @@ func TestVerifReplay(t *testing.T) {
 			if Valid(ok) != verifRefValid(verifRefHash(d), d) { t.Logf("REPLAY-CONFIRMED Valid disagrees with the definition on a correctly addressed payload of length %d", n); return }
 		}
 	}
+	// the span is opaque for validity: correctly addressed payloads with spans below, at and above
+	// the number of data bytes they carry
+	for _, n := range []int{1, 31, 64, 4096, boson.ChunkSize} {
+		for _, sp := range []uint64{0, 1, uint64(n) / 2, uint64(n) - 1, uint64(n), uint64(n) + 1, 1 << 40, ^uint64(0)} {
+			d := make([]byte, 8+n)
+			binary.LittleEndian.PutUint64(d, sp)
+			for i := 8; i < len(d); i++ { d[i] = byte(i*5 + 1) }
+			ok := boson.NewChunk(boson.NewAddress(verifRefHash(d)), d)
+			if !Valid(ok) {
+				t.Logf("REPLAY-CONFIRMED Valid rejects a chunk of %d data bytes whose address is the BMT hash of its payload because its span says %d", n, sp); return
+			}
+			if c, err := NewWithDataSpan(d); err != nil || !Valid(c) {
+				t.Logf("REPLAY-CONFIRMED NewWithDataSpan built a chunk (%d data bytes, span %d) that Valid rejects (err %v)", n, sp, err); return
+			}
+		}
+	}
 	t.Logf("not reproduced")
 }
 '''
